@@ -211,6 +211,29 @@ class Result(object):
         self.known_hit = []
 
 
+_ANCHOR_FILES = {}
+
+
+def _anchor_files(prop):
+    if not _ANCHOR_FILES:
+        import json
+        here = os.path.dirname(os.path.dirname(os.path.abspath(__file__)))
+        with open(os.path.join(here, 'properties.jsonl')) as fh:
+            for line in fh:
+                if line.strip():
+                    rec = json.loads(line)
+                    _ANCHOR_FILES[rec['id']] = list(
+                        rec.get('anchors', {}).get('files', []))
+    return _ANCHOR_FILES.get(prop, [])
+
+
+def _generic(ctx, prop):
+    """Clauses every property gets over its anchored modules (rule id
+    <prop>.0)."""
+    from .rules import common as K
+    K.no_hidden_state(ctx, '%s.0' % prop, _anchor_files(prop))
+
+
 def analyse(prop, tier='quick', index=None):
     """Run the rules of one property on an index; no output, no files."""
     res = Result()
@@ -229,6 +252,7 @@ def analyse(prop, tier='quick', index=None):
         if tier == 'thorough':
             ctx.index.load_all()
         mod.check(ctx)
+        _generic(ctx, prop)
         minimum = getattr(mod, 'MIN_OBLIGATIONS', 1)
         if len(ctx.obs) < minimum and all(o.ok for o in ctx.obs):
             raise AnalysisError(
